@@ -186,6 +186,8 @@ typedef struct {
     uint8_t *bytes;    /* exact-size heap copy: ASan sees over-reads */
     size_t len, pos;
     int rawerr;        /* 'R': take errors without draining the value queue first (values queued at that time are dropped) */
+    int gcpause;       /* 'g': between the moment an error is latched and the moment parser/error hands it out, a forced collection,
+                          allocations that reuse freed string blocks, and a second collection happen (the error text must not depend on it) */
     size_t eofoff;     /* added to the position label once parser/eof was called (same byte position, different phase) */
     Txt ev, tr;
     int nvalues;
@@ -295,13 +297,26 @@ static void latch_probe(Run *r) {
             pd != p->pending || lb != p->lookback || fl != p->flag || er != p->error)
         tx_printf(&r->ev, "LATCH-MOVED:%d%d%d ", p1, p2, p3);
 }
+/* unrelated heap activity: a full collection, then strings of the sizes the generated parser messages have (a block the collector
+   released is handed out again and overwritten), then another collection.  Nothing here references the parser. */
+static void heap_churn(void) {
+    uint8_t fill[160];
+    janet_collect();
+    memset(fill, 'G', sizeof fill);
+    for (int k = 0; k < 96; k++) (void) janet_string(fill, 24 + (k * 7) % 130);
+    janet_collect();
+}
 static void handle_error(Run *r) {
     Janet out;
     Janet a[1] = { r->pv };
     tr_status(r, "es");
+    /* the raw flag word while the error is pending (JANET_PARSER_GENERATED_ERROR tells parsermark that `error` is a heap string) */
+    tx_printf(&r->tr, "@%zu:ef=%d ", r->pos + r->eofoff, ((JanetParser *) janet_unwrap_abstract(r->pv))->flag);
     latch_probe(r);
     tr_where(r, "ew");
+    if (r->gcpause) heap_churn();
     if (!r->rawerr) drain(r);
+    if (r->gcpause) { heap_churn(); if (!status_is(r, "error")) tx_puts(&r->ev, "LATCH-MOVED:gc "); }
     tr_status(r, "es2");
     if (pcallc(cfun_parse_error, 1, a, &out)) { tx_puts(&r->ev, "e:PANIC "); return; }
     tx_puts(&r->ev, "e:");
@@ -432,6 +447,7 @@ static void run_case(const char *hex, const char *sched) {
             case 'f': { Janet o; Janet a[1] = { r.pv }; drain(&r); if (pcallc(cfun_parse_flush, 1, a, &o)) tr_panic(&r, "f", o); } break;
             case 'F': { Janet o; Janet a[1] = { r.pv }; if (pcallc(cfun_parse_flush, 1, a, &o)) tr_panic(&r, "F", o); } break;
             case 'R': r.rawerr = 1; break;
+            case 'g': r.gcpause = 1; break;
             case 'I': {
                 /* parser/insert of a small menu of values: changes what is parsed (solo schedules only) */
                 Janet iv;
